@@ -181,6 +181,23 @@ def run_shard(ctx):
             for mode in ("sql", MODES[k % len(MODES)]):
                 check_case(ctx, {"gen": "alter_triple", "ddl": ddl, "ctor": {}, "mode": mode, "group_by_type": bool(k % 2), "json_dump": False})
             ctx.obs["alter_kind_triples"] += 1
+    # a name defined twice (DROP TABLE t / an earlier, shorter CREATE TABLE [IF NOT EXISTS] t) and then altered: whichever entry the ALTER
+    # reaches, every entry of every "columns" list stays a complete column record
+    k = 0
+    firsts = ["DROP TABLE {t};", "CREATE TABLE IF NOT EXISTS {t} (a int);", "CREATE TABLE {t} (a int, b int);", "DROP TABLE IF EXISTS {t};", "CREATE TABLE IF NOT EXISTS {t} (a int, b int, c int);"]
+    seconds = ["CREATE TABLE IF NOT EXISTS {t} (a int, b int, c int);", "CREATE TABLE {t} (a int, b int, c int);", "CREATE TABLE IF NOT EXISTS {t} (a int PRIMARY KEY, b int, c int, d int);"]
+    alters = ["ALTER TABLE {t} ADD CONSTRAINT fk_c FOREIGN KEY (c) REFERENCES p (k);", "ALTER TABLE {t} ADD FOREIGN KEY (b, c) REFERENCES p (k1, k2);", "ALTER TABLE {t} ADD e int;",
+              "ALTER TABLE {t} ADD CONSTRAINT uq_c UNIQUE (c);", "ALTER TABLE {t} DROP COLUMN c;", "ALTER TABLE {t} RENAME COLUMN c TO c2;", "ALTER TABLE {t} MODIFY COLUMN c bigint;",
+              "CREATE INDEX ix_c ON {t} (c);", "ALTER TABLE {t} ADD CONSTRAINT df_c DEFAULT 0 FOR c;"]
+    for f, sd, al in itertools.product(firsts, seconds, alters):
+        k += 1
+        if not ctx.mine(k):
+            continue
+        t = ["t", "s.orders", '"T 1"'][k % 3]
+        ddl = "\n".join(x.format(t=t) for x in (f, sd, al)) + "\n"
+        for mode in ("sql", MODES[k % len(MODES)]):
+            check_case(ctx, {"gen": "defined_twice_then_altered", "ddl": ddl, "ctor": {}, "mode": mode, "group_by_type": bool(k % 2), "json_dump": False})
+        ctx.obs["defined_twice_then_altered"] += 1
     corp = [c for c in load_corpus() if c["ok"]]
     n = ctx.budget(96, len(corp) + ctx.nshards)
     for j in range(n):
